@@ -109,7 +109,7 @@ def _sanitizer_run(kind, pid, tier, seed, scale, wdir, shards, shard_scale, extr
         opt = 'TSAN_OPTIONS' if kind == 'tsan' else 'ASAN_OPTIONS'
         env[opt] = env.get(opt, '') + ':log_path=%s.%d' % (logbase, i)
         cmd = [binp, 'run', pid, '--tier', 'quick', '--seed', str(seed + 7), '--scale', str(shard_scale), '--shard', str(i), '--nshards', str(shards), '--out', outp,
-               '--mem-mb', '0', '--case-budget-ms', '600000']
+               '--mem-mb', '0', '--stack-mb', '4096', '--case-budget-ms', '600000']
         return i, _run(cmd, env, 3 * 3600, cwd=VERIF), outp
 
     import json
@@ -137,8 +137,14 @@ def _sanitizer_run(kind, pid, tier, seed, scale, wdir, shards, shard_scale, extr
                 if 'FATAL' in block[:200]:
                     res['inconclusive'] = 'sanitizer runtime failure: ' + block[:200]
                 continue
-            res['reports'] += 1
             head = block.splitlines()[0][:160]
+            if 'stack-overflow' in head:
+                # an instrumented frame is several times the size of an optimised one: depth is judged by the
+                # supervised optimised build (8 MiB), not here; the shard that died is reported as incomplete
+                res['stack_overflows_under_sanitizer'] = res.get('stack_overflows_under_sanitizer', 0) + 1
+                res['inconclusive'] = res['inconclusive'] or ('a %s shard overflowed its 4 GiB stack (%s): its remaining cases did not run' % (kind, head[:80]))
+                continue
+            res['reports'] += 1
             frame = re.search(r'(/repo/\S+?:\d+)', block)
             key = (re.sub(r'\(pid=\d+\)', '', head), frame.group(1) if frame else 'unknown')
             seen.setdefault(key, block[:2500])
